@@ -178,7 +178,7 @@ int isatty(int fd) {
     if (!sim_active()) return REAL(isatty)(fd);
     SimScope s; sim_step(); sim_event("isatty").a = fd;
     if (fd == 0) { if (G.w.tty_state == 2) return 1; errno = (G.w.tty_state == 1 && !G.fds.count(0)) ? EBADF : ENOTTY; return 0; }
-    if (fd == 1 || fd == 2) { if (G.w.stdout_kind == 0) return 1; errno = ENOTTY; return 0; }
+    if (fd == 1 || fd == 2) { if (G.w.stdout_kind == 0) return 1; errno = (G.w.stdout_kind == 3 && !G.fds.count(fd)) ? EBADF : ENOTTY; return 0; }
     errno = ENOTTY; return 0;
 }
 
